@@ -37,7 +37,8 @@ def strategy(draw, tier="quick"):
     tpairs = [[draw(st.integers(0, nf - 1)), draw(st.integers(0, nf - 1))] for _ in range(ntp)]
     g1 = sorted(set(draw(st.lists(st.integers(0, n - 1), min_size=1, max_size=4))))
     g2 = sorted(set(draw(st.lists(st.integers(0, n - 1), min_size=1, max_size=4))))
-    return {"nf": nf, "cells": cells, "coords": cp, "pairs": pairs, "periodic": periodic, "unreduced": unred,
+    return {"idxv": draw(st.sampled_from([0, 0, 0, 1, 2, 3, 4, 5])),     # container of the pair list (see gen.index_variant)
+            "nf": nf, "cells": cells, "coords": cp, "pairs": pairs, "periodic": periodic, "unreduced": unred,
             "time_pairs": tpairs, "g1": g1, "g2": g2, "cc_frame": draw(st.integers(0, nf - 1))}
 
 
@@ -111,8 +112,9 @@ def run_case(case):
     results = {}
     for opt in (True, False):
         tag = "opt" if opt else "ref"
-        dist = md.compute_distances(traj, pairs, periodic=periodic, opt=opt)
-        disp = md.compute_displacements(traj, pairs, periodic=periodic, opt=opt)
+        pv = gen.index_variant(pairs, case.get("idxv", 0))
+        dist = md.compute_distances(traj, pv, periodic=periodic, opt=opt)
+        disp = md.compute_displacements(traj, pv, periodic=periodic, opt=opt)
         results[tag] = (dist, disp)
         if dist.shape != (nf, len(pairs)) or disp.shape != (nf, len(pairs), 3):
             viol.append((tag + "/shape", "%s %s" % (dist.shape, disp.shape)))
